@@ -657,10 +657,13 @@ def r9(ctx, rep):
     for f in syn.fns_in_file("codegen/ast.rs") + syn.fns_in_file("codegen/mod.rs") + syn.fns_in_file("codegen/types.rs"):
         if "body" not in f or f["crate"] != "prqlc":
             continue
+        Af = None
         for n in walk(f["body"]):
             if n.get("k") == "assign" and show(n["lhs"]).split(".")[-1] in ("unbound_expr", "context_strength"):
-                writers.add((f["path"].split("::", 1)[1], show(n["lhs"]).split(".")[-1], show(n["rhs"], maxdepth=6)))
-    want = {("codegen::ast::write_within", "context_strength", "opt.context_strength.max(parent_strength)"),
+                if Af is None:
+                    Af = __import__("alpha").Inliner(f)
+                writers.add((f["path"].split("::", 1)[1], show(n["lhs"]).split(".")[-1], Af.show(n["rhs"])))
+    want = {("codegen::ast::write_within", "context_strength", "opt.context_strength.max(binding_strength(parent))"),
             ("codegen::ast::<ExprKind as WriteSource>::write", "context_strength", "10"),     # default value of a named parameter: read like an argument
             ("codegen::ast::<Expr as WriteSource>::write", "unbound_expr", "false"),          # after `alias = `
             ("codegen::ast::<ExprKind as WriteSource>::write", "unbound_expr", "true"),       # arguments of a function call
